@@ -26,9 +26,11 @@ def systematic():
             e = {"enum": list(vals)}
             if typed:
                 e["type"] = TYPES[name]
-            for pos in ("required", "optional", "ref", "item", "item-ref", "default", "nested"):
+            for pos in ("required", "optional", "ref", "item", "item-ref", "default", "nested", "def-array-item", "def-map-value", "map-value", "item2"):
                 if pos in ("ref", "item-ref") and not typed:
                     continue                      # an untyped enum definition is read as anything through a reference (D28)
+                if pos in ("map-value", "def-map-value") and not typed:
+                    continue                      # a wrapped enum as a map value does not marshal back (finding C02-wrapped-enum-map-value)
                 if pos == "required":
                     root = {"type": "object", "properties": {"e": e}, "required": ["e"]}
                 elif pos == "optional":
@@ -39,6 +41,14 @@ def systematic():
                     root = {"type": "object", "properties": {"l": {"type": "array", "items": e}}}
                 elif pos == "item-ref":
                     root = {"type": "object", "properties": {"l": {"type": "array", "items": {"$ref": "#/$defs/E"}}}, "$defs": {"E": e}}
+                elif pos == "def-array-item":
+                    root = {"type": "object", "properties": {"l": {"$ref": "#/$defs/Pal"}}, "$defs": {"Pal": {"type": "array", "items": e}}}
+                elif pos == "def-map-value":
+                    root = {"type": "object", "properties": {"m": {"$ref": "#/$defs/W"}}, "$defs": {"W": {"type": "object", "additionalProperties": e}}}
+                elif pos == "map-value":
+                    root = {"type": "object", "properties": {"m": {"type": "object", "additionalProperties": e}}}
+                elif pos == "item2":
+                    root = {"type": "object", "properties": {"g": {"type": "array", "items": {"type": "array", "items": e}}}}
                 elif pos == "default":
                     if name not in ("str", "str5"):
                         continue
